@@ -71,6 +71,12 @@ def gen_shape(r, idx):
             if o["kind"] in ("cattr",):
                 o["exposed"] = False
             members.append(o)
+    # an instance attribute that holds a plain, never-exposed function under the name of a method its class defines (plug-in hooks assigned in
+    # __init__ do this): the peer's name then denotes that unexposed function, whatever the class-level member's exposure is
+    meths = [m for m in members if m["kind"] == "method" and not m["name"].startswith("__")]
+    if meths and r.random() < 0.3:
+        t = r.choice(meths)
+        members.append({"name": t["name"], "kind": "ifunc", "where": "sub", "exposed": False, "oneway": False})
     shape = {"idx": idx, "expose_base": r.random() < 0.35, "expose_sub": r.random() < 0.35, "members": members}
     return shape
 
@@ -123,6 +129,8 @@ def shape_source(shape):
             for m in shape["members"]:
                 if m["kind"] == "iattr":
                     init.append("        self.%s = 42\n" % m["name"])
+                if m["kind"] == "ifunc":
+                    init.append("        self.%s = lambda *a, **k: (LOG.append(('%s.ifunc', a)), 'r:ifunc')[1]\n" % (m["name"], m["name"]))
                 if m["kind"] == "helper" and m["helper_as"] == "inst":
                     init.append("        self.%s = Helper%d()\n" % (m["name"], hidx[id(m)]))
             body.append("".join(init))
@@ -144,7 +152,7 @@ class Model:
                 self.eff[m["name"]] = m       # the subclass definition (or instance attribute) shadows the base one
         # an instance attribute (set in __init__) shadows non-data descriptors of the class, but not properties (data descriptors)
         for m in shape["members"]:
-            if m["kind"] in ("iattr",) or (m["kind"] == "helper" and m.get("helper_as") == "inst"):
+            if m["kind"] in ("iattr", "ifunc") or (m["kind"] == "helper" and m.get("helper_as") == "inst"):
                 cur = self.eff.get(m["name"])
                 if cur is not None and cur is not m and cur["kind"] in ("prop_ro", "prop_rw"):
                     continue
@@ -165,10 +173,10 @@ class Model:
             return None
         m = None
         for mm in self.shape["members"]:
-            if mm["name"] == name and mm["where"] == "base" and mm["kind"] not in ("iattr",) and not (mm["kind"] == "helper" and mm.get("helper_as") == "inst"):
+            if mm["name"] == name and mm["where"] == "base" and mm["kind"] not in ("iattr", "ifunc") and not (mm["kind"] == "helper" and mm.get("helper_as") == "inst"):
                 m = mm
         for mm in self.shape["members"]:
-            if mm["name"] == name and mm["where"] == "sub" and mm["kind"] not in ("iattr",) and not (mm["kind"] == "helper" and mm.get("helper_as") == "inst"):
+            if mm["name"] == name and mm["where"] == "sub" and mm["kind"] not in ("iattr", "ifunc") and not (mm["kind"] == "helper" and mm.get("helper_as") == "inst"):
                 m = mm
         return m if m and m["kind"] in ("prop_ro", "prop_rw") else None
 
@@ -426,6 +434,11 @@ def run_shape(fx, shape, sername, rec, r, light=False):
             rec.inconc("could not fetch metadata via %s: %r" % (source, x))
             continue
         rec.case((shape_h, "metadata", source, sername))
+        # (the daemon inspects the CLASS for the advertised list; a name the instance shadows with its own unexposed function is advertised if the
+        #  class-level method is exposed, yet refused when requested - the safe direction. That application-made name collision is left out here.)
+        shadowed = {m["name"] for m in shape["members"] if m["kind"] == "ifunc"}
+        got = tuple(g - shadowed for g in got)
+        exp_m, exp_a, exp_o = exp_m - shadowed, exp_a - shadowed, exp_o - shadowed
         if got != (exp_m, exp_a, exp_o):
             diff = {"methods": sorted(got[0] ^ exp_m), "attrs": sorted(got[1] ^ exp_a), "oneway": sorted(got[2] ^ exp_o)}
             rec.violation("metadata-differs-from-served-set", "advertised (%s) %r, served set per model %r; symmetric difference %r" % (
